@@ -298,7 +298,14 @@ Definition ostep (o : ost) (e : ev) : option ost :=
           (* anonymous actors and remote-id handles never touch the name table *)
           Some (mkO (o_live o) (o_stopping o) (o_waited o) (o_pidlive o) info)
       end
-  | EPid a => Some (mkO (o_live o) (o_stopping o) (o_waited o) (a :: o_pidlive o) (o_info o))
+  | EPid a =>
+      (* only an actor whose spawn got past the name step enters the pid table: a spawn rejected with
+         ActorAlreadyRegistered has no side effect (it leaves no o_info entry), so a pid insertion /
+         pid lifecycle event for it is rejected *)
+      match info_of a (o_info o) with
+      | Some _ => Some (mkO (o_live o) (o_stopping o) (o_waited o) (a :: o_pidlive o) (o_info o))
+      | None => None
+      end
   | EBegin a =>
       let pl := del_nat a (o_pidlive o) in
       match info_of a (o_info o) with
